@@ -555,14 +555,19 @@ pub struct Slice { p: u8 }
 impl View for Slice { type V = Seq<u8>; uninterp spec fn view(&self) -> Seq<u8>; }
 impl Clone for Slice { #[verifier::external_body] fn clone(&self) -> (r: Self) ensures r@ == self@ { unimplemented!() } }
 /// `&buf[..]` used as an `io::Read` source (R19)
-pub struct SliceReader { pub ghost rest: Seq<u8> }
+pub struct SliceReader { pub ghost rest: Seq<u8>, pub ghost whole: Seq<u8> }
 impl Read for SliceReader {
     spec fn rest(&self) -> Seq<u8> { self.rest }
     uninterp spec fn seen(&self) -> Seq<u8>;
-    type Id = ();
-    #[verifier::prophetic] spec fn src_id(&self) -> () { () }
+    type Id = Seq<u8>;
+    #[verifier::prophetic] spec fn src_id(&self) -> Seq<u8> { self.whole }
     #[verifier::external_body]
     fn read(&mut self, buf: &mut [u8]) -> (r: Result<usize, Error>) { unimplemented!() }
+}
+impl SliceReader {
+    /// Cursor::position: how much of the underlying slice has been consumed
+    #[verifier::external_body]
+    fn position(&self) -> (r: u64) ensures r == self.whole.len() - self.rest.len() { unimplemented!() }
 }
 impl Slice {
     #[verifier::external_body]
@@ -576,7 +581,7 @@ impl Slice {
     { unimplemented!() }
     /// `&mut &buf[..]` (R19)
     #[verifier::external_body]
-    fn reader(&self) -> (r: SliceReader) ensures r.rest() == self@ { unimplemented!() }
+    fn reader(&self) -> (r: SliceReader) ensures r.rest() == self@, r.whole == self@ { unimplemented!() }
     /// `&buf[a..]` (R19); panics like the slice index when out of range
     #[verifier::external_body]
     fn tail(&self, a: usize) -> (r: &[u8]) requires a <= self@.len() ensures r@ == self@.skip(a as int) { unimplemented!() }
